@@ -12,6 +12,8 @@ DropsRun3 == {{}, {<<1>>}, {<<0>>}}         \* consecutive values: "every n-th a
 Classes5 == {POSITIVE, 51, ROOR, NONE, LATE}
 Classes4 == {POSITIVE, ROOR, NONE, LATE}
 Classes3 == {POSITIVE, ROOR, NONE}
+ClassesCrash == {POSITIVE, NONE, CRASH}
+CfgsCrash == {Cfg(3, 35, <<>>, ck, re) : ck \in {0, 1, 2}, re \in {1, 2}}
 Classes2 == {POSITIVE, NONE}
 ClassesNeg == {POSITIVE, ROOR, 51}
 
